@@ -113,20 +113,19 @@ Definition p_kw : str := [75]%N.
 Definition base_ty : cty := CSub [(p_base, CData [(ka, CInt, VInt 1)]); (p_kw, CData [])].
 Definition spec (cp : str) (rest : list (val * val)) : val := VDict ((VStr k_class_path, VStr cp) :: rest).
 
-(* skip_default, nulls kept: a spec over the declared default None makes the dump raise (leaf_rt = None) *)
+(* regression witnesses about the tree BEFORE /repo 2b39397 (trim_gen false): skip_default with nulls kept made the dump
+   raise for a spec over the declared default None, and deleted a spec whose class and init_args were the default's
+   although its dict_kwargs differed; and the repaired rule (trim_gen true = trim) does neither *)
 Lemma skip_default_none_default_witness :
-  fx_subclass_trim = false /\
-  rt some_text yaml_skipdef {| lf_key := kx; lf_ty := base_ty; lf_def := VNone |}
-     (spec p_base [(VStr k_init_args, VDict [(VStr ka, VInt 1)])]) = None.
+  trim_gen false base_ty (spec p_base [(VStr k_init_args, VDict [(VStr ka, VInt 1)])]) VNone = TErr /\
+  trim base_ty (spec p_base [(VStr k_init_args, VDict [(VStr ka, VInt 1)])]) VNone = TKeep (spec p_base []).
 Proof. vm_compute. auto. Qed.
 
-(* skip_default: default spec {KW}, value {KW, dict_kwargs: {a: 1}}: the key is deleted, the re-parse has no dict_kwargs *)
 Lemma skip_default_dict_kwargs_witness :
-  fx_subclass_trim = false /\
-  exists w', rt some_text yaml_skipdef {| lf_key := kx; lf_ty := base_ty; lf_def := spec p_kw [] |}
-               (spec p_kw [(VStr k_dict_kwargs, VDict [(VStr ka, VInt 1)])]) = Some w' /\
-             veq w' (spec p_kw [(VStr k_dict_kwargs, VDict [(VStr ka, VInt 1)])]) = false.
-Proof. split; [reflexivity|]. eexists. split; vm_compute; reflexivity. Qed.
+  trim_gen false base_ty (spec p_kw [(VStr k_dict_kwargs, VDict [(VStr ka, VInt 1)])]) (spec p_kw []) = TDel /\
+  trim base_ty (spec p_kw [(VStr k_dict_kwargs, VDict [(VStr ka, VInt 1)])]) (spec p_kw [])
+    = TKeep (spec p_kw [(VStr k_dict_kwargs, VDict [(VStr ka, VInt 1)])]).
+Proof. vm_compute. auto. Qed.
 
 (* skip_default: default spec S{a: 5, b: 2}, value B{a: 1} (1 = B's own default): only class_path is written, and the
    re-parse carries a = 5 over from the default spec *)
